@@ -135,6 +135,10 @@ func (w *World) RemoteConfig(store mast.Persist, cache mast.NodeCache) *mast.Rem
 		NodeCache:               cache,
 		KeyCompare:              w.KeyCompare,
 	}
+	if w.Cfg.Val == VNil {
+		rc.ValuesLike = nil
+		rc.UnmarshalerUsesRegisteredTypes = true
+	}
 	m, u := w.Cfg.Codec()
 	if m != nil {
 		rc.Marshal, rc.Unmarshal = m, u
@@ -254,6 +258,9 @@ func (t *Tree) noteHeight() {
 
 // Insert applies Insert to tree and model.
 func (w *World) Insert(t *Tree, ki, vn int) error {
+	if w.Cfg.Val == VNil {
+		vn = 0 // every value is nil: one value number
+	}
 	err := Safely("Insert", func() error { return t.M.Insert(Ctx, w.Pool[ki], w.Cfg.MakeVal(vn)) })
 	if err != nil {
 		return fmt.Errorf("Insert(%v,%v) failed: %w", w.Pool[ki], w.Cfg.MakeVal(vn), err)
